@@ -28,8 +28,9 @@ CONSTANTS Dev       \* subset of {"EmptyObject", "EmptyToken", "PartialCreate", 
 Op(o)   == o[1]
 File(o) == o[2]
 X(o)    == o[3]
-IsLockFile(f) == f \in {"tokenlock", "obj1lock", "obj2lock", "obj3lock", "obj4lock", "obj5lock", "obj6lock"}
-IsObjFile(f)  == f \in {"obj1", "obj2", "obj3", "obj4", "obj5", "obj6"}
+IsLockFile(f) == f \in {"tokenlock", "obj1lock", "obj2lock", "obj3lock", "obj4lock", "obj5lock", "obj6lock", "obj7lock",
+                        "obj8lock", "obj9lock"}
+IsObjFile(f)  == f \in {"obj1", "obj2", "obj3", "obj4", "obj5", "obj6", "obj7", "obj8", "obj9"}
 DataFlush(o)  == Op(o) = "fflush" /\ X(o) = "w"
 
 -----------------------------------------------------------------------------
@@ -45,6 +46,12 @@ Step(st, o) ==
     \* while a file is truncated and not yet flushed nothing else happens (no other file is touched)
     ELSE IF st.t # {} /\ ~(Op(o) \in {"fflush", "open"} /\ (f \in st.t \/ IsLockFile(f))) THEN [st EXCEPT !.ok = FALSE]
     ELSE st
+\* a call that only reads (C_FindObjects, C_GetAttributeValue, C_GetObjectSize, C_Sign, C_Encrypt, C_GetTokenInfo ...)
+\* writes nothing to the token directory: no truncation, no data flush, no write lock, nothing created or removed
+ReadOnlyOK(ops) == \A i \in 1 .. Len(ops) :
+    /\ Op(ops[i]) \notin {"ftruncate", "remove", "mkdir", "rmdir", "wrlock"}
+    /\ ~DataFlush(ops[i])
+    /\ ~(Op(ops[i]) = "open" /\ X(ops[i]) \in {"C", "T", "TC", "CT"})
 ProtocolOK(ops) == LET fin == FoldLeft(Step, [ok |-> TRUE, w |-> {}, t |-> {}], ops) IN fin.ok /\ fin.t = {} /\ fin.w = {}
 
 -----------------------------------------------------------------------------
